@@ -98,6 +98,7 @@ func c06Grid() []lifeSc {
 			sc.Outbound, sc.OutBy, sc.Users = tr.out, tr.by, 1+ti%4
 			sc.Handler, sc.Server, sc.GateLate = tr.handler, tr.server, tr.gateLate
 			sc.Reconnect = "none"
+			sc.ConnectTo = k%5 == 2
 			if ti%3 == 0 {
 				sc.Second = []string{"idle", "busy"}[k%2]
 			}
